@@ -21,7 +21,7 @@ mod rewrite;
 #[derive(Debug, Clone)]
 pub struct At {
     pub anchor: String,
-    pub occurrence: usize,
+    pub occurrence: i64,
     pub before: bool,
     pub up: usize,
     pub text: String,
@@ -52,6 +52,7 @@ pub struct Dir {
     pub novis: bool,
     pub dropgenerics: bool,
     pub ret: Option<String>,
+    pub fold: Option<(String, String)>,
 }
 
 pub fn die(kind: &str, detail: &str) -> ! {
@@ -204,7 +205,7 @@ fn parse_template(t: &str) -> Vec<Result<String, Dir>> {
                     }
                     let a = arg[..arg.len() - if before { 6 } else { 5 }].trim();
                     let (a, occ) = match a.rfind("\" #") {
-                        Some(i) => (&a[..=i], a[i + 3..].trim().parse::<usize>().unwrap_or(1)),
+                        Some(i) => (&a[..=i], a[i + 3..].trim().parse::<i64>().unwrap_or(1)),
                         None => (a, 1),
                     };
                     d.ats.push(At { anchor: unquote(a), occurrence: occ, before, up, text: String::new() });
@@ -238,6 +239,7 @@ fn parse_template(t: &str) -> Vec<Result<String, Dir>> {
                 "novis" => d.novis = true,
                 "ret" => d.ret = Some(arg.to_string()),
                 "dropgenerics" => d.dropgenerics = true,
+                "fold" => d.fold = Some(split_arrow(arg)),
                 _ => die("template", &format!("line {}: unknown directive //@{}", ln + 1, kw)),
             }
             continue;
@@ -415,6 +417,22 @@ fn locate(file: &syn::File, d: &Dir) -> Located {
         }
     } else {
         die("template", &format!("line {}: bad container `{}`", d.tline, cont));
+    }
+    if ikind == "fieldfold" {
+        // R24: a fold over the named fields of a struct (see process_fieldfold)
+        for it in &file.items {
+            if let syn::Item::Struct(s) = it {
+                if s.ident == iname {
+                    return Located {
+                        range: attrs_start(&s.attrs, br(s.span()).start)..br(s.span()).end,
+                        kind: "fieldfold",
+                        in_trait_impl: false,
+                        in_trait: false,
+                    };
+                }
+            }
+        }
+        die("anchor-lost", &format!("{}: struct {} not found", d.file, iname));
     }
     if ikind == "constmacro" {
         // R23: a const-table macro invocation `name! { … }` + its macro_rules definition
@@ -726,6 +744,34 @@ fn process_constmacro(src: &str, d: &Dir) -> StructOut {
     StructOut { text: out, rules }
 }
 
+/// R24: `//@extract f :: - :: fieldfold S` + `//@fold "INIT" => "STEP"` emits INIT followed by STEP for every
+/// named field of struct S as it is in the repository today (`{}` in STEP is the field name; `#[cfg(test)]`
+/// fields are skipped as in R2).  Used to derive, mechanically from the real struct definition, spec functions
+/// that are a union over the fields (what a value owns), so that they follow the struct when it changes.
+fn process_fieldfold(src: &str, d: &Dir) -> StructOut {
+    let item: syn::ItemStruct = syn::parse_str(src).unwrap_or_else(|e| die("parse-failure", &format!("{}: {}", d.item, e)));
+    let (init, step) = d.fold.clone().unwrap_or_else(|| die("template", &format!("{}: fieldfold needs //@fold \"init\" => \"step\"", d.item)));
+    let mut out = String::new();
+    let mut n = 0;
+    let _ = writeln!(out, "        {}", init);
+    match &item.fields {
+        syn::Fields::Named(nf) => {
+            for f in &nf.named {
+                if f.attrs.iter().any(|a| attr_is(a, "#[cfg(test)]")) {
+                    continue;
+                }
+                let name = f.ident.as_ref().unwrap().to_string();
+                let _ = writeln!(out, "        {}", step.replace("{}", &name));
+                n += 1;
+            }
+        }
+        _ => die("unsupported", &format!("{}: fieldfold on a struct without named fields", d.item)),
+    }
+    let mut rules = BTreeMap::new();
+    rules.insert("R24".to_string(), n);
+    StructOut { text: out, rules }
+}
+
 /// text of an impl-item const inside an impl: `const X: T = e;`
 fn process_assoc_const(src: &str, d: &Dir) -> StructOut {
     let c: syn::ImplItemConst = syn::parse_str(src).unwrap_or_else(|e| die("parse-failure", &format!("{}: {}", d.item, e)));
@@ -877,17 +923,34 @@ fn process_fn(src_with_attrs: &str, d: &Dir, loc: &Located) -> FnOut {
             edits.push((at..at, format!("\n{}", t)));
         }
         for a in &d.ats {
-            let mut from = 0;
             let mut pos = None;
-            for _ in 0..a.occurrence {
-                match text[from..].find(a.anchor.as_str()) {
-                    Some(p) => {
-                        pos = Some(from + p);
-                        from = from + p + 1;
+            if a.occurrence < 0 {
+                // counted from the end: -1 = last occurrence
+                let mut upto = text.len();
+                for _ in 0..(-a.occurrence) {
+                    match text[..upto].rfind(a.anchor.as_str()) {
+                        Some(p) => {
+                            pos = Some(p);
+                            upto = p;
+                        }
+                        None => {
+                            pos = None;
+                            break;
+                        }
                     }
-                    None => {
-                        pos = None;
-                        break;
+                }
+            } else {
+                let mut from = 0;
+                for _ in 0..a.occurrence {
+                    match text[from..].find(a.anchor.as_str()) {
+                        Some(p) => {
+                            pos = Some(from + p);
+                            from = from + p + 1;
+                        }
+                        None => {
+                            pos = None;
+                            break;
+                        }
                     }
                 }
             }
@@ -1004,6 +1067,10 @@ fn main() {
                     "macro" => (format!("{}\n", item_src), BTreeMap::new(), d.item.clone()),
                     "constmacro" => {
                         let o = process_constmacro(item_src, &d);
+                        (o.text, o.rules, d.item.clone())
+                    }
+                    "fieldfold" => {
+                        let o = process_fieldfold(item_src, &d);
                         (o.text, o.rules, d.item.clone())
                     }
                     _ => {
